@@ -26,6 +26,11 @@ def main(ctx: Ctx) -> None:
         "tie: one case = one generated def / item sequence / initializer / ImportTracker operation sequence, distinct by "
         "content, non-trivial when it has ≥ 2 parameters / items / nodes / ≥ 3 operations.  search: one case = one "
         "(generated module, stubgen mode) pair, non-trivial when the module has ≥ 3 features.")
+    from translate import c19cfg
+    c19cfg.main()       # Gen/StubCfg.lean: which rule the checked tree implements at the four decision points
+    if c19cfg.NOTE:
+        ctx.broken_ties.append(c19cfg.NOTE)
+    ctx.coverage["checked_tree_rules"] = c19cfg.facts()
     proved = ctx.prove("MypyVerif.Props.C19", MODEL_FILES)
     ctx.trusted(
         "models: _get_func_args + format_sig (per-argument part), get_str_default_of_node, get_str_type_of_node, "
@@ -33,6 +38,8 @@ def main(ctx: Ctx) -> None:
         "Python's parameter grammar is a hand-written parser model, validated against CPython's ast.parse on every "
         "item sequence up to length 5/6 and random longer ones",
         "correspondence harness harness/c19/tie.py",
+        "translator translate/c19cfg.py (four observed facts: `/`-prefix rule, spacing of `not`, non-finite floats, "
+        "bytes delimiter) — the tie re-checks the selected rules on every generated case",
         "PARTIAL BY DESIGN: validity and faithfulness of whole stubs (class bodies, decorators, aliases, __all__, "
         "inspect mode, mypy/stubtest verdicts) are NOT proved; they are searched with the real tools — testing")
     ctx.coverage["covered_by_theorem"] = [
@@ -56,6 +63,8 @@ def main(ctx: Ctx) -> None:
     if os.environ.get("C19_SKIP_SEARCH") != "1":
         from harness.c19 import search
         search.run(ctx)
+    if c19cfg.NOTE and not ctx.violations:
+        ctx.violation(c19cfg.NOTE, {"broken": "translate/c19cfg.py probes"}, found_input=False)
     if not proved and not ctx.violations:
         ctx.violation("Lean development for C19 no longer builds", {"broken": ctx.broken_ties}, found_input=False)
 
